@@ -317,6 +317,15 @@ Definition fn_swarm_addlisten := mkFn "swarm_addlisten"
   [] [] [] HandOver
   ["list.Multiaddr"; "s.TransportForListening"; "s.listeners.Lock"; "s.listeners.Unlock"; "s.notifyAll"; "s.refs.Add"].
 
+
+(* ---- swarm Stream: Close / Reset / ResetWithError finish the stream whatever the
+   muxed stream answers (closeAndRemoveStream unregisters it and Dones its scope,
+   at once or when the accept goroutine completes) --------------------------- *)
+Definition fn_stream_close := mkFn "stream_close"
+  [("s.closeAndRemoveStream", (RelStrm, RelStrm, RelStrm))]
+  [] [] [] Nop
+  ["s.stream.Close"; "s.stream.Reset"; "s.stream.ResetWithError"].
+
 (* ---- tcpreuse: the shared TCP listener that samples the first bytes ---------- *)
 Definition fn_identify_conn := mkFn "identify_conn"
   [("c.Close", (RelRaw, RelRaw, RelRaw));
